@@ -74,6 +74,10 @@ pub trait ProgProperty {
     fn fuzz_target(&self) -> Option<&'static str> {
         None
     }
+    /// Append the upper-bits probe (`refmodel::probe_epilogue`) to a third of the halting programs at widths 16 and 32 and to two thirds at 64.
+    fn probe_upper_bits(&self) -> bool {
+        false
+    }
     fn input_strategy(&self) -> BoxedStrategy<Vec<u8>> {
         bf::input_bytes()
     }
@@ -116,7 +120,7 @@ impl<T: ProgProperty> PP<T> {
     /// program in four - chosen by a hash of its text - gets it.
     fn step_limit(&self, program: &str, family: &str) -> u64 {
         let full = self.0.max_steps();
-        if crate::engine::fnv(program) % 4 == 0 || family == "wide" || family == "bigconst" || family == "hibits" {
+        if family.ends_with("+probe") || crate::engine::fnv(program) % 4 == 0 || family == "wide" || family == "bigconst" || family == "hibits" || family == "shl" {
             full
         } else {
             (full / 15).max(1000)
@@ -189,11 +193,19 @@ impl<T: ProgProperty> Property for PP<T> {
         (bf::prog(self.0.mix(tier)), self.0.input_strategy(), self.0.width_strategy(), sel_strategy()).boxed()
     }
     fn concretize(&self, g: &ProgGen) -> ProgCase {
-        let program = g.0.render();
+        let mut program = g.0.render();
         let input = g.0.fixed_input().unwrap_or_else(|| g.1.clone());
-        let r = refmodel::run(&program, &input, g.2, self.step_limit(&program, g.0.family()));
+        let mut r = refmodel::run(&program, &input, g.2, self.step_limit(&program, g.0.family()));
+        let mut family = g.0.family().to_string();
+        if self.0.probe_upper_bits() && g.2 > 8 && r.fate == refmodel::Fate::Halt && (crate::engine::fnv(&program) % 3 == 1 || (g.2 == 64 && crate::engine::fnv(&program) % 3 == 2)) {
+            if let Some(ep) = refmodel::probe_epilogue(&r, g.2) {
+                program.push_str(&ep);
+                r = refmodel::run(&program, &input, g.2, self.0.max_steps());
+                family.push_str("+probe");
+            }
+        }
         let cfgs = if self.0.admit(&r).is_ok() { self.0.make_cfgs(&g.3, &program, &input, g.2, &r) } else { vec![] };
-        ProgCase { program, input, bits: g.2, cfgs, family: g.0.family().to_string() }
+        ProgCase { program, input, bits: g.2, cfgs, family }
     }
     fn check(&self, c: &ProgCase, stats: &mut Stats) -> Outcome {
         self.check_inner(c, stats)
